@@ -13,8 +13,9 @@ BREAKS = ['auto', 'auto', 'avoid', 'page', 'left', 'right', 'recto', 'verso', 'a
 
 
 class Gen:
-    def __init__(self, rng, features=None):
+    def __init__(self, rng, features=None, adversarial=False):
         self.rng = rng
+        self.adversarial = adversarial
         self.word = 0
         self.groups = []
         self.features = set()
@@ -80,6 +81,11 @@ class Gen:
             parts.append(f'orphans:{rng.choice([1, 2, 3, 4])};widows:{rng.choice([1, 2, 3, 4])}')
         if rng.random() < 0.05:
             parts.append('box-decoration-break:clone')
+        if self.adversarial and rng.random() < 0.12:
+            # adversarial-but-legal sizes (C02): zero, tiny, huge, negative margins
+            parts.append(rng.choice(['height:0', 'width:0', 'height:1px', 'width:1px', 'width:5000px',
+                                     'margin-top:-30px', 'margin-left:-500px', 'min-height:3000px',
+                                     'max-width:0', 'padding:300px', 'font-size:0', 'line-height:0']))
         if rng.random() < 0.06:
             # tall decoration: pushes what follows close to (or beyond) the bottom of the page
             parts.append(f'padding-bottom:{rng.choice([15, 30, 55, 85, 140])}px')
@@ -132,7 +138,12 @@ class Gen:
                 self.features.add('float')
                 side = rng.choice(['left', 'right'])
                 inner = self.inside('float', lambda: self.paragraph('oof'))
-                out.append(f'<div style="float:{side};width:{rng.choice([30, 50, 80])}px">{inner}</div>')
+                extra = ''
+                if self.adversarial and rng.random() < 0.3:
+                    extra = rng.choice([';height:0', ';height:0;overflow:hidden', ';width:0', ';clear:both'])
+                    if rng.random() < 0.5:
+                        out.append(f'<div style="float:{side};width:{rng.choice([30, 60])}px;height:0"></div>')
+                out.append(f'<div style="float:{side};width:{rng.choice([30, 50, 80])}px{extra}">{inner}</div>')
                 out.append(self.paragraph(kind))
             elif r < 0.96 and self.allow('positioned') and kind == 'flow':
                 self.features.add('positioned')
@@ -168,10 +179,16 @@ class Gen:
         if rng.random() < 0.3:
             foot = '<tfoot><tr>' + ''.join(f'<td>{self.inline_text("rep", 1)}</td>' for _ in range(cols)) + '</tr></tfoot>'
         rows = []
+        empty_table = self.adversarial and rng.random() < 0.25
         for _ in range(rng.choice([1, 2, 4, 8, 16])):
-            cells = ''.join(f'<td>{self.inline_text("flow", rng.choice([1, 2, 3]))}</td>' for _ in range(cols))
+            if empty_table:
+                cells = ''.join(f'<td style="width:{rng.choice([0, 0, 10])}px;padding:0"></td>' for _ in range(cols))
+            else:
+                cells = ''.join(f'<td>{self.inline_text("flow", rng.choice([1, 2, 3]))}</td>' for _ in range(cols))
             rows.append(f'<tr>{cells}</tr>')
         collapse = 'border-collapse:collapse;' if rng.random() < 0.3 else ''
+        if empty_table:
+            collapse += f'width:{rng.choice([80, 200])}px;'
         return (f'<table style="{collapse}border-spacing:1px">{head}{foot}<tbody>{"".join(rows)}</tbody></table>')
 
 
@@ -192,9 +209,9 @@ def columns_focus(g, rng, height, line):
     return f'<div style="columns:{rng.choice([2, 3])};column-gap:0">{inner}</div>'
 
 
-def gen(rng, features=None, focus=None):
+def gen(rng, features=None, focus=None, adversarial=False):
     """Return dict(html, groups, page=(w, h), features)."""
-    g = Gen(rng, features)
+    g = Gen(rng, features, adversarial)
     font = rng.choice([4, 6, 8, 10])
     line = font + rng.choice([0, 2])
     width = rng.choice([60, 100, 160, 240])
